@@ -97,6 +97,7 @@ class Monitors:
         self.rule_budget = 150000        # rule applications per API call
         self.case_steps = 0
         self.case_rule_calls = 0
+        self.zero_length = []
         self._orig_registry = {}
         self._install()
 
@@ -114,6 +115,10 @@ class Monitors:
         def _match_regex(txt, regexes):
             res = orig_match(txt, regexes)
             mon.case_matches = [(r.id, r.mstart, r.mend) for r in res]
+            for r in res:
+                if r.mend <= r.mstart:
+                    mon.events["zero_length_match"] += 1
+                    mon.zero_length.append((r.id, r.mstart, txt))
             mon.events["regex_match"] += len(res)
             mon.events["match_regex_call"] += 1
             return res
